@@ -737,6 +737,9 @@ class C15(Prop):
                         look = '%s->%dd1' % (impl.parse_name(x_), ords_.get(x_, 0))
                         if tok(look) not in pool_names:
                             other.append('add o [ ] %s -' % tok(look))
+                    if rnd.random() < 0.3:
+                        # the other complex holds generated names of its own (more of them than we have generated)
+                        other += ['add o [ ] - -'] * rnd.randint(3, 7)
                     lines += other
                     req = 'relabeldisj a o'
                 lines += ['check c15-pre a ' + req, req, 'check c15-post a', 'snap a']
